@@ -231,6 +231,25 @@ fn run<C: CI>(ctx: &mut Ctx) {
             cell!(ctx, "{name}/exact-fit/{}/pad{}", len_class(a.bits, n), if pad == 0 { "0" } else if (pad * a.bits as usize) % 64 == 0 { "word" } else { "unaligned" });
         }
     });
+    ctx.group(&format!("{name}/huge"), |ctx| {
+        // 2^10 .. 2^16 symbols and 65 .. 2049 machine words, random and structured contents; equal contents and
+        // contents differing at the first / last / a block-seam position, the two operands at different offsets
+        // (aligned vs unaligned matters for block-wise comparison and hashing)
+        for (k, n) in huge_lengths(ctx, a.bits).into_iter().enumerate() {
+            let x = structured_codes(&mut ctx.rng, a, n, k);
+            let (p1, p2) = [(0usize, 1 % noff), (1 % noff, 0), (0, 0), (3 % noff, 7 % noff)][k % 4];
+            pair::<C>(ctx, &x, &x, "equal", p1, p2);
+            let mut y = x.clone();
+            let at = [n - 1, 0, (n / 4096) * 4096 % n, n - 1 - (n % 4096) / 2, n / 2][k % 5];
+            let codes_all = a.codes();
+            y[at] = *codes_all.iter().find(|c| **c != x[at]).unwrap();
+            pair::<C>(ctx, &x, &y, "diff-huge", p1, p2);
+            if k % 3 == 0 {
+                pair::<C>(ctx, &x, &x[..n - 1], "proper-prefix", p1, p2);
+            }
+            cell!(ctx, "{name}/huge/2^{}", usize::BITS - n.leading_zeros());
+        }
+    });
     ctx.group(&format!("{name}/hashmap"), |ctx| {
         let nkeys = ctx.n(120, 1500, 3);
         let mut modelmap: BTreeMap<Vec<u8>, usize> = BTreeMap::new();
